@@ -11,7 +11,7 @@ from typing import Dict, List, Optional, Set, Tuple
 
 from .. import flow
 from ..cfg import cfg_of
-from ..model import UNKNOWN, AnchorError, Func, UnknownIdiom, short, walk_no_nested
+from ..model import UNKNOWN, AnchorError, Func, UnknownIdiom, short, unparse, walk_no_nested
 from .c08 import check_parse_qs_options
 from .c09_helpers import (ASGI_REQ, WSGI_REQ, ReachingDefs, SiteEscape, branch_facts, classes_of, effective_members,
                           fact_value, is_public, node_of, norm_header_key, split_key, table_of, unguarded_keys)
@@ -453,6 +453,9 @@ def _raised(p, f: Func):
 # R3 constructor parity
 # ---------------------------------------------------------------------------
 
+_STRIP_KIND: Dict[str, str] = {}
+
+
 def _strip_guard(p, f: Func):
     cfg = cfg_of(f, p)
     stores = [n for n in cfg.live_nodes() if n.kind == 'stmt' and isinstance(n.ast, (ast.Assign, ast.AnnAssign))
@@ -462,7 +465,19 @@ def _strip_guard(p, f: Func):
     stripped = [n for n in stores if isinstance(n.ast.value, ast.Subscript) and isinstance(n.ast.value.slice, ast.Slice)
                 and n.ast.value.slice.lower is None and short(n.ast.value.slice.upper) == '-1' and isinstance(n.ast.value.value, ast.Name)]
     if len(stripped) != 1:
+        # some other transformation of the path (rstrip, slicing by a computed
+        # amount, ...): report its shape so that the parity check can compare
+        # the two siblings; the guards are not interpreted
+        other = [n for n in stores if not isinstance(n.ast.value, ast.Name)]
+        if len(other) == 1:
+            names = sorted({x.id for x in walk_self(other[0].ast.value) if isinstance(x, ast.Name)})
+            txt = short(other[0].ast.value, 80)
+            for nm in names:
+                txt = txt.replace(nm, '<path>')
+            _STRIP_KIND[f.qual] = txt
+            return other[0], {'transform:' + txt}
         raise UnknownIdiom('%s: expected one `self.path = <path>[:-1]`, found %d' % (f.qual, len(stripped)))
+    _STRIP_KIND[f.qual] = '<path>[:-1]'
     sn = stripped[0]
     var = sn.ast.value.value.id
     atoms = set()
@@ -502,9 +517,23 @@ def r3_constructor_parity(run):
     p = run.project
     fw, fa = p.func(WSGI_REQ + '.__init__'), p.func(ASGI_REQ + '.__init__')
     res = {}
+    _STRIP_KIND.clear()
+    pre = {}
+    for f in (fw, fa):
+        pre[f.qual] = _strip_guard(p, f)
+    kinds = dict(_STRIP_KIND)
+    if kinds.get(fw.qual) != kinds.get(fa.qual):
+        odd = fa if kinds.get(fa.qual) != '<path>[:-1]' else fw
+        run.fail('the two constructors transform the request path differently under strip_url_path_trailing_slash '
+                 '(%s: %s; %s: %s): the same request is routed differently by the two stacks' % (
+                     fw.qual, kinds.get(fw.qual), fa.qual, kinds.get(fa.qual)), odd, pre[odd.qual][0].ast,
+                 runtime_witness="GET /items// with the option on: one stack sees '/items/', the other '/items'")
+        return
+    if kinds.get(fw.qual) != '<path>[:-1]':
+        raise UnknownIdiom('both constructors transform the path as %s; the strip guard rule does not understand that shape' % kinds.get(fw.qual))
     for f in (fw, fa):
         run.use_cfg(cfg_of(f, p))
-        sn, atoms = _strip_guard(p, f)
+        sn, atoms = pre[f.qual]
         res[f.qual] = atoms
         run.check({'option', 'endswith-slash'} <= atoms,
                   '%s strips one trailing slash only when options.strip_url_path_trailing_slash is set and the path ends with "/"' % f.qual, f, sn.ast,
@@ -765,6 +794,55 @@ def r5_driver_tables(run):
                       'content-header-set', where=h.loc(), witness=['get_header %s' % [sorted(x) for x in a], 'driver %s' % [sorted(x) for x in b]])
 
 
+# ---------------------------------------------------------------------------
+# R6 access_route: the connecting peer is appended under the same condition
+# ---------------------------------------------------------------------------
+
+def _route_tail(p, f: Func):
+    """(if-node, normalised test text, normalised else text) of the statement
+    that appends the connecting peer to a non-empty forwarded route."""
+    ROUTE = '_cached_access_route'
+
+    def is_route(e):
+        return isinstance(e, ast.Attribute) and e.attr == ROUTE
+
+    found = []
+    for n in walk_no_nested(f.node):
+        if not isinstance(n, ast.If):
+            continue
+        for st in n.body:
+            if isinstance(st, ast.Expr) and isinstance(st.value, ast.Call) and isinstance(st.value.func, ast.Attribute) \
+                    and st.value.func.attr == 'append' and is_route(st.value.func.value) and len(st.value.args) == 1:
+                arg = st.value.args[0]
+                # the hop loop appends parsed hosts too; the peer append is the one guarded by a test that mentions the route
+                if any(is_route(x) for x in ast.walk(n.test)):
+                    found.append((n, arg))
+    if len(found) != 1:
+        raise UnknownIdiom('%s: expected one guarded append of the peer address to the route, found %d' % (f.qual, len(found)))
+    node, peer = found[0]
+    ptxt = unparse(peer)
+    txt = unparse(node.test).replace(ptxt, '<peer>')
+    for x in ast.walk(node.test):
+        if is_route(x):
+            txt = txt.replace(unparse(x), '<route>')
+    return node, txt
+
+
+def r6_access_route_tail(run):
+    p = run.project
+    fw = p.lookup_method(WSGI_REQ, 'access_route')
+    fa = p.lookup_method(ASGI_REQ, 'access_route')
+    if fw is None or fa is None or fw is fa:
+        raise AnchorError('access_route is not implemented separately by the two request classes')
+    nw, tw = _route_tail(p, fw)
+    na, ta = _route_tail(p, fa)
+    run.use(fw)
+    run.use(fa)
+    run.check(tw == ta, 'both access_route implementations append the connecting peer to a forwarded chain under the same condition', fa,
+              na.test, where=fa.loc(na), witness=['WSGI: %s' % tw, 'ASGI: %s' % ta],
+              runtime_witness='X-Forwarded-For: 10.0.0.1, 192.0.2.43 from peer 10.0.0.1: the two stacks report different access_route / remote_addr')
+
+
 def check(run):
     run.assume('whole-behaviour equality is not decided; the parity obligations between the hand-duplicated siblings are')
     run.assume('R4 (dispatch parity) = C03 R1 + C04 R3 + C05 R3/R4: decided by those checks, not re-evaluated here')
@@ -774,4 +852,5 @@ def check(run):
     run.rule('R1', r1_override_completeness, 'no public ASGI request member reaches a base body that needs WSGI-only state', floor=60)
     run.rule('R2', r2_accessor_parity, 'accessor / constructor parity: escape sets, consulted headers, raised errors', floor=40)
     run.rule('R3', r3_constructor_parity, 'constructor parity: trailing slash, query-string options, content type', floor=10)
+    run.rule('R6', r6_access_route_tail, 'access_route: peer appended under the same condition in both stacks', floor=1)
     run.rule('R5', r5_driver_tables, 'test drivers provide what the request classes read; header-name mangling agrees', floor=12)
